@@ -1,5 +1,6 @@
 import Sozu.Headers.Lemmas
 import Sozu.Headers.Validate
+import Sozu.Headers.Reconcile
 /-
 C03 — client and backend agree on request boundaries.
 Only property statements (`C03_*`) and their non-vacuity examples live here;
@@ -139,5 +140,21 @@ theorem C03_framing_choice (lim : Limits) (es : Bool) (hl : List (Bytes × Bytes
     (h : validateRequest lim es hl = .ok r) :
     (es = true → r.body = .length 0) ∧ r.body ≠ .empty :=
   validate_framing lim es hl r h
+
+/-- **A declared Content-Length is enforced against DATA** (model of
+    `h2.rs::handle_data_frame` / the trailer path; read from the source, not
+    tied — the code is not callable in-process): for every sequence of DATA /
+    trailer frames on a stream with `Content-Length: n`, never more than `n`
+    payload bytes are forwarded, and if the stream ends without being reset
+    exactly `n` were — the `BodyFits` hypothesis of `C03_unambiguous`. -/
+theorem C03_declared_length_enforced (n : Nat) (evs : List StreamEv) :
+    (rrun (some n) false evs).forwarded ≤ n ∧
+    ((rrun (some n) false evs).done = true →
+      (rrun (some n) false evs).reset = false ∧ (rrun (some n) false evs).forwarded = n) :=
+  ⟨(rrun_inv n evs).1, (rrun_inv n evs).2.2.2⟩
+
+example : (rrun (some 5) false [.data 2 false, .data 3 true]).done = true ∧
+    (rrun (some 5) false [.data 2 false, .data 4 true]).reset = true ∧
+    (rrun (some 5) false [.data 2 false, .trailers]).reset = true := by decide
 
 end Sozu.Headers
